@@ -47,6 +47,10 @@ pub trait Exec {
     fn probe(&self) -> Option<StoreProbe> {
         None
     }
+    /// Record::len() of the stored record of `key` (without lazy expiry), if any
+    fn record_len(&self, _key: &[u8]) -> Option<u64> {
+        None
+    }
     /// panics observed inside the code under test since the last call
     fn take_panics(&mut self) -> Vec<String>;
     /// ring name for logs
